@@ -27,6 +27,8 @@ func C02(e *Env) {
 	loopExitRule(e, "R02.7", compilerRel, "an element after the exit is never compiled", "resolveArgs", "StepCompileServices.serviceCalls", "StepCompileServices.serviceTags", "StepCompileServices.serviceFields", "StepCompileDecorators.Process", "StepCompileServices.Process", "StepCompileParams.Process")
 	sortSites(e, "R02.4s")
 	r.Rule("R02.4s", "nothing in module code reorders a slice except the three reviewed sort sites (sorted map keys, imports by path, matched files)", 1)
+	c15Todo(e)
+	r.Rule("R15.1", "a todo service is compiled to name+flag only, on the todo flag alone (shared with C15): a todo service that is silently compiled as a regular one builds something the configuration did not declare", 1)
 	c02ResolverChain(e, "R02.1")
 	r.Rule("R02.1", "argument-resolver chain: each strategy's accepted class is read from its Supports; the catch-all (pattern) is last, the others are pairwise disjoint and all documented forms are wired, so every argument form is compiled by the resolver the documentation names", 8)
 	c06Recorded(e)
